@@ -344,6 +344,7 @@ type havocSpec struct {
 	modFams     []string              // base family of each modRef ("" = unknown)
 	exact       bool                  // modRefs is the complete list of modifiable old objects
 	keepRefs    []Term                // objects preserved whatever happens (non-escaped locals)
+	sinceMark   Term                  // if set: objects allocated before this mark are preserved, younger ones may change
 	unknown     bool                  // frame unknown: any old object of any family may have been modified
 	allocBefore Term
 	why         string
@@ -393,6 +394,9 @@ func (e *enc) baseGet(b *baseNode, fam string) Term {
 		}
 		written := sp.writesAll || sp.writes[bf]
 		switch {
+		case sp.sinceMark != "":
+			t = e.declare(fam, sortS)
+			e.assume(fmt.Sprintf("(forall ((r Int)) (! (=> (and (< 0 r) (< r %s)) (= (select %s r) (select %s r))) :pattern ((select %s r))))", sp.sinceMark, t, prev, t))
 		case !written:
 			// allocation only: old objects keep their contents; the contents of
 			// objects the callee allocates are whatever the (unconstrained)
